@@ -1,6 +1,7 @@
 package props
 
 import (
+	"bytes"
 	"fmt"
 	"io/ioutil"
 	"os"
@@ -26,6 +27,7 @@ type p1Case struct {
 	DC       bool          `json:"dc,omitempty"`
 	Extra    []string      `json:"extra,omitempty"`
 	DiskTwin bool          `json:"disktwin,omitempty"` // additionally run the same directory through the exported API on a real directory
+	Fresh    int           `json:"fresh,omitempty"`    // C04: > 0: a FRESH process whose first PAR1 call handles a set of this many files (the per-set limit on probed volume numbers is 256 - files), followed by the round trip of a 3-file set with 60 volumes of which only the last three survive
 	Dec      *decProtoCase `json:"dec,omitempty"`      // C04: operation sequences (with interrupted Repairs and failing loads) on ONE PAR1 Decoder object, see decproto.go
 }
 
@@ -212,7 +214,57 @@ func runP1(c *p1Case, r *core.Rec, cl p1Clauses) {
 	}
 }
 
+// c04WideFirst is "vcheck aux c04-wide-first <files> <seed>": see p1Case.Fresh.
+func c04WideFirst(args []string) int {
+	nf, seed := 200, int64(1)
+	if len(args) > 1 {
+		fmt.Sscan(args[0], &nf)
+		fmt.Sscan(args[1], &seed)
+	}
+	var sz []int
+	for i := 0; i < nf; i++ {
+		sz = append(sz, 1+i%5)
+	}
+	wide, err := scen.GetP1(scen.P1Config{Sizes: sz, Volumes: 1}, seed)
+	if err != nil {
+		fmt.Println("wide create failed:", err)
+		return 0
+	}
+	var wo scen.P1Obs
+	wide.ObserveVerify(wide.FS0.Clone(), true, &wo)
+	if wo.VerifyErr != nil || !wo.Result.AllDataOk {
+		fmt.Printf("wide set does not verify: %v %+v\n", wo.VerifyErr, wo.Result)
+		return 0
+	}
+	s, err := scen.GetP1(scen.P1Config{Sizes: []int{5, 8, 2}, Volumes: 60}, seed)
+	if err != nil {
+		fmt.Println("create failed:", err)
+		return 0
+	}
+	fs := s.FS0.Clone()
+	for v := 1; v <= 57; v++ {
+		fs.Del(scen.VolPath(s.Index, v))
+	}
+	fs.Del(s.Paths[1])
+	var o scen.P1Obs
+	s.ObserveVerify(fs.Clone(), false, &o)
+	if o.VerifyErr != nil || o.Result.FileCounts.UsableParityFileCount != 3 {
+		fmt.Printf("Verify: %v, usable volumes %d, want 3\n", o.VerifyErr, o.Result.FileCounts.UsableParityFileCount)
+		return 0
+	}
+	s.ObserveRepair(fs, false, &o)
+	if b, ok := fs.Get(s.Paths[1]); o.RepairErr != nil || !ok || !bytes.Equal(b, s.Data[1]) {
+		fmt.Printf("Repair: %v, file restored: %v\n", o.RepairErr, ok)
+		return 0
+	}
+	fmt.Println("ok")
+	return 0
+}
+
 func c04Gen(g *core.Gen) {
+	for _, nf := range []int{3, 157, 158, 200, 254} {
+		g.Emit(&p1Case{Fresh: nf})
+	}
 	// the round trip through a Decoder object that lives on: interrupted Repairs, failing loads, retries, and damage /
 	// restore events in between (an error path that leaves something behind shows on the next call)
 	decDepth := 5
@@ -382,6 +434,7 @@ func c04Deviate(g *core.Gen, cfg scen.P1Config, D int) {
 }
 
 func init() {
+	core.Aux["c04-wide-first"] = c04WideFirst
 	core.Register(&core.Prop{
 		ID:    "C04",
 		Level: "model_checking",
@@ -392,6 +445,17 @@ func init() {
 		NewCase:     func() interface{} { return &p1Case{} },
 		Gen:         c04Gen,
 		Run: func(ci interface{}, r *core.Rec) {
+			if c := ci.(*p1Case); c.Fresh > 0 {
+				out, err := core.FreshProcess("c04-wide-first", fmt.Sprint(c.Fresh), fmt.Sprint(r.Seed))
+				r.AddStates(1)
+				r.AddTransitions(4)
+				if err != nil || strings.TrimSpace(out) != "ok" {
+					r.Violatef("round-trip-depends-on-the-first-set-of-the-process", "fresh process, first a set of %d files, then a 3-file set with 60 volumes (p58..p60 left, one file lost): %v %s", c.Fresh, err, strings.TrimSpace(out))
+				}
+				r.Outcome(fmt.Sprintf("fresh %d", c.Fresh))
+				r.NontrivialCase()
+				return
+			}
 			if c := ci.(*p1Case); c.Dec != nil {
 				decProtoRun(c.Dec, r, func(d *decProtoCase) interface{} { return &p1Case{Dec: d} })
 				return
